@@ -122,5 +122,6 @@ def post(ctx, spec):
         queries.append({"name": fn + ": calls treated as opaque (assumed not to throw / not to change the arguments)", "verdict": "holds", "solver": "IR scan", "secs": 0, "detail": opaque})
     spec["extra_coverage"] = {"irsym_queries": queries, "irsym_discharged": sum(1 for q in queries if q["verdict"] in ("unsat", "holds")), "irsym_total": len(queries),
                               "irsym_not_encoded": [q["name"] for q in queries if q["verdict"] == "not-encoded"]}
-    for src_, args_ in [("c16_svd_cache.cpp", ())]:
+    # concrete companions (no solver verdict): the fixed SVD leak, and rejected constructions of every solver class leave no allocation behind
+    for src_, args_ in [("c16_svd_cache.cpp", ()), ("c12_rejected_ctor.cpp", ())]:
         D.run_regression(ctx, src_, args_)
